@@ -36,6 +36,9 @@ func harnessOverlay(harnessDir string, native bool) (map[string][]byte, error) {
 		}
 		rel, _ := filepath.Rel(harnessDir, p)
 		dir := filepath.Dir(rel)
+		if dir == "shared" {
+			return nil
+		}
 		if strings.HasPrefix(dir, "root") {
 			dir = strings.TrimPrefix(strings.TrimPrefix(dir, "root"), "/")
 		}
